@@ -255,6 +255,9 @@ func c18genSig(r *rng) *c18sig {
 		v := c18var{t: c18genTy(r, 2)}
 		if named {
 			v.name = []string{"x", "y", "z", "w", "v"}[i]
+			if r.chance(1, 16) {
+				v.name = "_" // may repeat; the last one is the one a lookup finds
+			}
 		}
 		s.params = append(s.params, v)
 	}
@@ -291,7 +294,7 @@ var c18cat = []c18ins{
 		ctx: func(c *build.Context, o []operand.Op) { c.XORL(o[0], o[1]) }, pkg: func(o []operand.Op) { build.XORL(o[0], o[1]) }},
 	{name: "MOVL", arity: 2, valid: []string{"imm32,r32", "imm32,m", "r32,r32", "m,r32", "r32,m"},
 		ctx: func(c *build.Context, o []operand.Op) { c.MOVL(o[0], o[1]) }, pkg: func(o []operand.Op) { build.MOVL(o[0], o[1]) }},
-	{name: "MOVQ", arity: 2, valid: []string{"imm32,r64", "imm32,m", "r64,r64", "m,r64", "r64,m", "m,xmm", "r32,xmm", "r64,xmm", "xmm,m", "xmm,r32", "xmm,r64", "xmm,xmm"},
+	{name: "MOVQ", arity: 2, valid: []string{"imm64,r64", "imm32,r64", "imm32,m", "r64,r64", "m,r64", "r64,m", "m,xmm", "r32,xmm", "r64,xmm", "xmm,m", "xmm,r32", "xmm,r64", "xmm,xmm"},
 		ctx: func(c *build.Context, o []operand.Op) { c.MOVQ(o[0], o[1]) }, pkg: func(o []operand.Op) { build.MOVQ(o[0], o[1]) }},
 	{name: "CMPQ", arity: 2, valid: []string{"m,imm8", "m,imm32", "m,r64", "r64,imm8", "r64,imm32", "r64,m", "r64,r64"},
 		ctx: func(c *build.Context, o []operand.Op) { c.CMPQ(o[0], o[1]) }, pkg: func(o []operand.Op) { build.CMPQ(o[0], o[1]) }},
@@ -303,7 +306,8 @@ var c18cat = []c18ins{
 		ctx: func(c *build.Context, o []operand.Op) { c.PADDD(o[0], o[1]) }, pkg: func(o []operand.Op) { build.PADDD(o[0], o[1]) }},
 	{name: "MOVUPS", arity: 2, valid: []string{"m,xmm", "xmm,m", "xmm,xmm"},
 		ctx: func(c *build.Context, o []operand.Op) { c.MOVUPS(o[0], o[1]) }, pkg: func(o []operand.Op) { build.MOVUPS(o[0], o[1]) }},
-	{name: "VPADDD", arity: -1, valid: []string{"m,ymm,ymm", "ymm,ymm,ymm", "m,xmm,xmm", "xmm,xmm,xmm", "m,xmm,k,xmm", "m,ymm,k,ymm", "xmm,xmm,k,xmm", "ymm,ymm,k,ymm"},
+	{name: "VPADDD", arity: -1, valid: []string{"m,ymm,ymm", "ymm,ymm,ymm", "m,xmm,xmm", "xmm,xmm,xmm", "m,xmm,k,xmm", "m,ymm,k,ymm", "xmm,xmm,k,xmm", "ymm,ymm,k,ymm",
+		"m,zmm,zmm", "zmm,zmm,zmm", "m,zmm,k,zmm", "zmm,zmm,k,zmm"},
 		ctx: func(c *build.Context, o []operand.Op) { c.VPADDD(o...) }, pkg: func(o []operand.Op) { build.VPADDD(o...) }},
 	{name: "KORQ", arity: 3, valid: []string{"k,k,k"},
 		ctx: func(c *build.Context, o []operand.Op) { c.KORQ(o[0], o[1], o[2]) }, pkg: func(o []operand.Op) { build.KORQ(o[0], o[1], o[2]) }},
@@ -341,7 +345,8 @@ var c18catIdx = func() map[string]*c18ins {
 
 // operand classes the generator draws from; "mnb" = memory operand without base,
 // "mx0" = base + index with scale 0 (accepted by the constructors, rejected by pass.Verify)
-var c18classes = []string{"r64", "r32", "xmm", "ymm", "k", "imm8", "imm32", "m", "lbl", "mnb", "mx0"}
+var c18classes = []string{"r64", "r32", "xmm", "ymm", "k", "imm8", "imm32", "m", "lbl", "mnb", "mx0",
+	"r16", "r8", "zmm", "imm16", "imm64", "nil"}
 
 // ---------------------------------------------------------------- the two routes
 
@@ -735,6 +740,8 @@ func (h *c18hist) regOf(class string) reg.Register {
 			return pick(h.r, h.ymm)
 		}
 		return pick(h.r, []reg.Register{reg.Y0, reg.Y3})
+	case "zmm":
+		return pick(h.r, []reg.Register{reg.Z0, reg.Z5, reg.Z31})
 	case "k":
 		if v {
 			return pick(h.r, h.kreg)
@@ -746,7 +753,7 @@ func (h *c18hist) regOf(class string) reg.Register {
 
 func c18kindOf(class string) int {
 	switch class {
-	case "xmm", "ymm":
+	case "xmm", "ymm", "zmm":
 		return 2
 	case "k":
 		return 3
@@ -754,17 +761,39 @@ func c18kindOf(class string) int {
 	return 1
 }
 
+// label names: four plain ones, and names that differ from them only in case, by one
+// more character, or by a look-alike letter (label identity is string equality)
+var c18labels = []string{"l0", "l1", "l2", "l3"}
+var c18labelsNear = []string{"L1", "l10", "l1_", "_l1", "l01", "ł1", "L0", "l"}
+var c18labelsAll = append(append([]string{}, c18labels...), c18labelsNear...)
+
+func (h *c18hist) labelName() string {
+	if h.r.chance(1, 6) {
+		return pick(h.r, c18labelsNear)
+	}
+	return pick(h.r, c18labels)
+}
+
 func (h *c18hist) label(forJump bool) string {
-	return fmt.Sprintf("l%d", h.r.intn(4))
+	return h.labelName()
 }
 
 func (h *c18hist) opnd(class string, lbl string) c18opnd {
 	switch class {
-	case "r64", "r32", "r16", "r8", "xmm", "ymm", "k":
+	case "r64", "r32", "r16", "r8", "xmm", "ymm", "zmm", "k":
 		k := c18kindOf(class)
 		return c18opnd{h.regOf(class), fmt.Sprintf("r:%d", k), class, []int{k}}
 	case "imm8":
-		return c18opnd{operand.U8(h.r.intn(100)), "i", class, nil}
+		if h.r.chance(1, 4) {
+			return c18opnd{operand.I8(-1 - h.r.intn(128)), "i", class, nil}
+		}
+		return c18opnd{operand.U8(h.r.intn(256)), "i", class, nil}
+	case "imm16":
+		return c18opnd{operand.U16(h.r.intn(1 << 16)), "i", class, nil}
+	case "imm64":
+		return c18opnd{operand.U64(h.r.u64() | 1<<40), "i", class, nil}
+	case "nil":
+		return c18opnd{nil, "nil", class, nil}
 	case "imm32":
 		return c18opnd{operand.U32(1000 + h.r.intn(100000)), "i", class, nil}
 	case "lbl":
@@ -851,7 +880,7 @@ func (h *c18hist) genInstr(name string, wantValid bool, forceClasses []string, l
 	} else {
 		n := e.arity
 		if n < 0 {
-			n = 2 + h.r.intn(3)
+			n = pick(h.r, []int{0, 1, 2, 3, 3, 4, 4, 5})
 		}
 		for tries := 0; ; tries++ {
 			classes = nil
@@ -886,6 +915,9 @@ func (h *c18hist) genInstr(name string, wantValid bool, forceClasses []string, l
 		h.noteInstr(e.ik, ek)
 		if e.branch != 0 && h.haveFn {
 			h.refs[lbl] = true
+			if c18nearLabel(lbl) {
+				h.stats["label_near_miss_referenced"]++
+			}
 		}
 		h.stats["ins_ok"]++
 	} else {
@@ -950,7 +982,19 @@ func (h *c18hist) rawMem(i *ir.Instruction, k int) {
 	h.stats["raw_"+tok]++
 }
 
+func c18nearLabel(name string) bool {
+	for _, l := range c18labelsNear {
+		if l == name {
+			return true
+		}
+	}
+	return false
+}
+
 func (h *c18hist) genLabel(name string) {
+	if c18nearLabel(name) {
+		h.stats["label_near_miss_defined"]++
+	}
 	h.op("lab", name)
 	h.call("Label", func() { h.a.Label(name) })
 	if h.haveFn {
@@ -972,7 +1016,7 @@ func (h *c18hist) fixups() {
 		h.stats["fixups_skipped"]++
 		return
 	}
-	for _, l := range []string{"l0", "l1", "l2", "l3"} {
+	for _, l := range c18labelsAll {
 		if h.refs[l] && !h.defined[l] {
 			h.genLabel(l)
 			h.genInstr("NOP", true, nil, "")
@@ -1005,14 +1049,7 @@ func (h *c18hist) genFunction() {
 		// TEXT(name, attrs, signature) = Function + Attributes + SignatureExpr
 		at := pick(h.r, c18attrs)
 		bad := h.r.intn(1000) < h.pFault
-		var expr string
-		var s *c18sig
-		if bad {
-			expr = pick(h.r, c18badSigs)
-		} else {
-			s = c18genSig(h.r)
-			expr = s.goSrc()
-		}
+		expr, s := h.c18sigExpr(!bad)
 		h.op(c18fnTok(name)...)
 		h.openFn()
 		h.op("attr", itoa(at))
@@ -1034,25 +1071,25 @@ func (h *c18hist) genFunction() {
 
 func (h *c18hist) genSig() {
 	if h.r.intn(1000) < h.pFault {
-		expr := pick(h.r, c18badSigs)
+		expr, _ := h.c18sigExpr(false)
 		h.op("sigbad")
 		h.call("SignatureExpr", func() { h.a.SignatureExpr(expr) })
 		h.stats["sigbad"]++
 		return
 	}
-	s := c18genSig(h.r)
+	expr, s := h.c18sigExpr(true)
 	h.op(s.toks()...)
 	if h.r.chance(1, 4) {
 		// Signature(*gotypes.Signature) with a signature parsed separately
 		h.call("Signature", func() {
-			gs, err := gotypes.ParseSignature(s.goSrc())
+			gs, err := gotypes.ParseSignature(expr)
 			if err != nil {
-				panic("harness: generated signature does not parse: " + s.goSrc() + ": " + err.Error())
+				panic("harness: generated signature does not parse: " + expr + ": " + err.Error())
 			}
 			h.a.c.Signature(gs)
 		})
 	} else {
-		h.call("SignatureExpr", func() { h.a.SignatureExpr(s.goSrc()) })
+		h.call("SignatureExpr", func() { h.a.SignatureExpr(expr) })
 	}
 	if h.haveFn {
 		h.sig = s
@@ -1105,8 +1142,8 @@ func (h *c18hist) genRoot() {
 			v := pick(h.r, vars)
 			name = v.name
 		}
-		if bad && h.r.chance(1, 5) {
-			name = ""
+		if bad {
+			name = h.nearMissName(vars, s, results)
 		}
 		for _, v := range vars {
 			if v.name == name && name != "" {
@@ -1131,8 +1168,17 @@ func (h *c18hist) genRoot() {
 		}
 		if bad {
 			i = len(vars) + h.r.intn(3)
+			if h.r.chance(1, 6) {
+				i = pick(h.r, c18farIndices)
+				h.stats["root_far_index"]++
+			}
 			if h.negIdx && h.r.chance(1, 2) {
 				i = -1 - h.r.intn(2)
+				if h.r.chance(1, 4) {
+					i = pick(h.r, c18farNegIndices)
+				}
+			}
+			if i < 0 {
 				h.f3a = true
 			}
 		}
@@ -1149,6 +1195,48 @@ func (h *c18hist) genRoot() {
 	}
 	h.pushComp(c, sh)
 	h.stats["root"]++
+}
+
+// indices far outside every tuple / array (the wrap-around points of 32 and 64 bit arithmetic)
+var c18farIndices = []int{1 << 31, 1<<32 + 1, 1<<63 - 1, 1 << 62, 255, 256, 65536}
+var c18farNegIndices = []int{-1<<63 + 1, -1 << 31, -1<<32 - 1, -256, -1 << 62}
+
+// nearMissName: a name that is not among vars but close to one that is, or that
+// another part of the signature answers to: the name of a variable of the other
+// tuple, the names the printers give to unnamed variables, a name in another
+// case, with a character more or less; sometimes the empty name.
+func (h *c18hist) nearMissName(vars []c18var, s *c18sig, results bool) string {
+	r := h.r
+	other := s.results
+	if results {
+		other = s.params
+	}
+	var cands []string
+	for _, v := range other {
+		cands = append(cands, v.name)
+	}
+	for _, v := range vars {
+		if v.name != "" {
+			cands = append(cands, strings.ToUpper(v.name), v.name+v.name, v.name+"1", v.name+"_", "_"+v.name, v.name+"0")
+		}
+	}
+	cands = append(cands, "arg", "arg0", "arg1", "ret", "ret0", "ret1", "nope", "", "", "_", "X")
+	for tries := 0; tries < 8; tries++ {
+		n := pick(r, cands)
+		taken := false
+		for _, v := range vars {
+			if v.name == n && n != "" {
+				taken = true
+			}
+		}
+		if !taken {
+			if n != "nope" && n != "" {
+				h.stats["root_near_miss_name"]++
+			}
+			return n
+		}
+	}
+	return "nope"
 }
 
 // pickSlotWhere prefers (recent) slots whose shadow satisfies want.
@@ -1196,10 +1284,13 @@ func (h *c18hist) pickSlot() int {
 }
 
 func (h *c18hist) genNav() {
-	bad := h.r.intn(1000) < h.pFault
+	// in a history with builder-time faults every eighth navigation is a wrong one, preferably on a typed component
+	bad := h.r.intn(1000) < h.pFault || (h.pFault > 0 && h.r.chance(1, 8))
 	slot := h.pickSlot()
 	if !bad {
 		slot = h.pickSlotWhere(c18navigable)
+	} else if s := h.pickSlotWhere(c18navigable); s >= 0 && h.r.chance(1, 2) {
+		slot = s
 	}
 	if slot < 0 {
 		if h.haveFn || bad {
@@ -1233,7 +1324,11 @@ func (h *c18hist) genNav() {
 		}
 	} else {
 		idx = h.r.intn(6)
-		fld = pick(h.r, []string{"a", "b", "c", "zz"})
+		fld = pick(h.r, []string{"a", "b", "c", "zz", "A", "aa", "a_", "", "b1", "_"})
+		if h.r.chance(1, 8) {
+			idx = pick(h.r, c18farIndices)
+			h.stats["nav_far_index"]++
+		}
 		if sh.t != nil && h.r.chance(1, 2) {
 			// near miss: the selector that is valid on a *similar* kind, and the result is used right away
 			switch sh.t.k {
@@ -1247,17 +1342,36 @@ func (h *c18hist) genNav() {
 				m = pick(h.r, []string{"len", "fld"})
 			case "struct":
 				m = pick(h.r, []string{"idx", "base"})
+				if h.r.chance(1, 2) {
+					// a field name that is nearly one of the struct's: other case, a character more, none
+					f := pick(h.r, sh.t.fields).name
+					m, fld = "fld", pick(h.r, []string{strings.ToUpper(f), f + f, f + "_", "_" + f, f + "0", "", "_", "A", "zz"})
+					for _, g := range sh.t.fields {
+						if g.name == fld {
+							fld = "zz"
+						}
+					}
+					h.stats["nav_near_miss_field"]++
+				}
 			case "ptr":
 				m = pick(h.r, []string{"base", "fld"})
 			}
 			nearMiss = true
+			h.stats["nav_near_miss_on_"+sh.t.k]++
 		}
 		if sh.t != nil && sh.t.k == "arr" && h.r.chance(1, 2) {
 			// just past the end of an array, and used right away
 			m, idx, negArr = "idx", sh.t.n+h.r.intn(2), true
+			if h.r.chance(1, 6) {
+				idx = pick(h.r, c18farIndices)
+				h.stats["nav_far_index"]++
+			}
 		}
 		if h.negIdx && m == "idx" && h.r.chance(1, 2) {
 			idx = -1 - h.r.intn(2)
+			if h.r.chance(1, 4) {
+				idx = pick(h.r, c18farNegIndices)
+			}
 		}
 	}
 	var out gotypes.Component
@@ -1269,7 +1383,11 @@ func (h *c18hist) genNav() {
 		h.op("nav", itoa(slot), "idx", itoa(idx))
 		h.call("Index", func() { out = c.Index(idx) })
 	case "fld":
-		h.op("nav", itoa(slot), "fld", fld)
+		tf := fld
+		if tf == "" {
+			tf = "-" // the token for the empty name
+		}
+		h.op("nav", itoa(slot), "fld", tf)
 		h.call("Field", func() { out = c.Field(fld) })
 	case "deref":
 		h.op("nav", itoa(slot), "deref")
@@ -1476,11 +1594,33 @@ func (h *c18hist) overlapsAny(off, size int) bool {
 
 func (h *c18hist) genDatum() {
 	size := h.genSize()
-	bad := h.r.intn(1000) < h.pFault
+	// in a history with builder-time faults every sixth placement is aimed at existing data
+	bad := h.r.intn(1000) < h.pFault || (h.pFault > 0 && len(h.data) > 0 && h.r.chance(1, 6))
 	off := h.gsize
 	switch {
+	case !bad && len(h.data) > 0 && h.r.chance(1, 10):
+		// a zero-width datum at the start or the end of an existing one: a valid request
+		// (it overlaps nothing) that later placements must not be confused by
+		d := pick(h.r, h.data)
+		size = 0
+		off = d[0]
+		if h.r.chance(1, 2) {
+			off = d[0] + d[1]
+		}
+		h.stats["datum_zero_width_at_edge"]++
 	case bad && len(h.data) > 0:
 		d := pick(h.r, h.data)
+		if h.r.chance(1, 3) {
+			// prefer a place where something of width zero sits
+			for _, e := range h.data {
+				if e[1] == 0 && h.r.chance(1, 2) {
+					d = e
+				}
+			}
+		}
+		if d[1] == 0 {
+			h.stats["datum_bad_at_zero_width"]++
+		}
 		off = d[0] + h.r.intn(d[1]+1)
 		if h.r.chance(1, 2) && off > 0 {
 			off--
@@ -1491,6 +1631,17 @@ func (h *c18hist) genDatum() {
 		off = h.r.intn(h.gsize + 8)
 	}
 	v := h.constOf(size)
+	if bad && h.haveGlob && h.r.chance(1, 5) {
+		// before the start of the section: just below 0, overlapping 0 from below, far below
+		off = -pick(h.r, []int{1, 1, size, size + 1, 8, 1 << 31, 1 << 62})
+		if off == 0 {
+			off = -1
+		}
+		h.op("datumneg", itoa(-off-1), itoa(size))
+		h.call("AddDatum", func() { h.a.AddDatum(off, v) })
+		h.stats["datum_negative"]++
+		return
+	}
 	h.op("datum", itoa(off), itoa(size))
 	h.call("AddDatum", func() {
 		h.a.AddDatum(off, v)
@@ -1536,82 +1687,6 @@ func (h *c18hist) genGlob() {
 		h.openGlob()
 	}
 	h.stats["glob"]++
-}
-
-var c18goodTerms = []string{"linux", "amd64", "!windows", "go1.18", "a_b", "386", "!purego", "x.y"}
-var c18badTerms = []string{"!!x", "!", "a-b", "x/y", "a b", "", "a+b", "!!", "é?"}
-
-func (h *c18hist) genConstraint(expr bool) (buildtags.Constraint, []string, string) {
-	var c buildtags.Constraint
-	var toks []string
-	var fields []string
-	nopt := 1 + h.r.intn(2)
-	bad := h.r.intn(1000) < h.pFault
-	emptyOpt := false
-	if bad && h.r.chance(1, 6) {
-		if expr || h.r.chance(1, 2) {
-			nopt = 0 // empty constraint (ConstraintExpr(""))
-		} else {
-			emptyOpt = true
-		}
-	}
-	toks = append(toks, itoa(nopt))
-	badAt := h.r.intn(nopt + 1)
-	if badAt >= nopt {
-		badAt = 0
-	}
-	for i := 0; i < nopt; i++ {
-		nterm := 1 + h.r.intn(2)
-		if expr && bad && i == badAt {
-			nterm = 2
-		}
-		if emptyOpt && i == badAt {
-			nterm = 0
-		}
-		var o buildtags.Option
-		var ts []string
-		toks = append(toks, itoa(nterm))
-		for j := 0; j < nterm; j++ {
-			t := pick(h.r, c18goodTerms)
-			if bad && i == badAt && j == 0 {
-				t = pick(h.r, c18badTerms)
-				for expr && strings.ContainsAny(t, " ,") {
-					t = pick(h.r, c18badTerms)
-				}
-			}
-			o = append(o, buildtags.Term(t))
-			ts = append(ts, t)
-			toks = append(toks, hexs(t))
-		}
-		c = append(c, o)
-		fields = append(fields, strings.Join(ts, ","))
-	}
-	return c, toks, strings.Join(fields, " ")
-}
-
-func (h *c18hist) genCons() {
-	switch h.r.intn(3) {
-	case 0:
-		n := 1 + h.r.intn(2)
-		var cs buildtags.Constraints
-		toks := []string{"conss", itoa(n)}
-		for i := 0; i < n; i++ {
-			c, t, _ := h.genConstraint(false)
-			cs = append(cs, c)
-			toks = append(toks, t...)
-		}
-		h.op(toks...)
-		h.call("Constraints", func() { h.a.Constraints(cs) })
-	case 1:
-		c, t, _ := h.genConstraint(false)
-		h.op(append([]string{"cons"}, t...)...)
-		h.call("Constraint", func() { h.a.Constraint(c) })
-	default:
-		_, t, expr := h.genConstraint(true)
-		h.op(append([]string{"consx"}, t...)...)
-		h.call("ConstraintExpr", func() { h.a.ConstraintExpr(expr) })
-	}
-	h.stats["cons"]++
 }
 
 // pressure: Function(name) and a block with n simultaneously live fresh virtual registers of one kind.
@@ -1689,7 +1764,7 @@ func (h *c18hist) genPressure(limits map[int]int) {
 
 // genSingle injects the one compile-time fault of a "single" history.
 func (h *c18hist) genSingle(limits map[int]int) {
-	if !h.haveFn {
+	if !h.haveFn && h.single != 10 {
 		h.genFunction()
 	}
 	switch h.single {
@@ -1707,6 +1782,8 @@ func (h *c18hist) genSingle(limits map[int]int) {
 		h.pPassFault = 0
 	case 8:
 		h.genStubBreak()
+	case 10:
+		h.genConsFault()
 	default:
 		h.genNil(h.r.intn(len(c18nilKinds)))
 	}
@@ -1911,6 +1988,12 @@ func (h *c18hist) genOne(limits map[int]int) {
 	case w < 80:
 		if needFn() {
 			a := pick(r, c18attrs)
+			if r.chance(1, 4) {
+				// every value is a valid request; NOFRAME (512) is left out: a NOFRAME function whose
+				// allocation reaches the base pointer is a compile error of its own, outside the property's list
+				a = r.intn(1<<16) &^ 512
+				h.stats["attr_any"]++
+			}
 			h.op("attr", itoa(a))
 			h.call("Attributes", func() { h.a.Attributes(attr.Attribute(a)) })
 		}
@@ -1946,10 +2029,10 @@ func (h *c18hist) genOne(limits map[int]int) {
 		}
 	case w < 460:
 		if needFn() {
-			name := fmt.Sprintf("l%d", r.intn(4))
+			name := h.labelName()
 			if h.haveFn && h.defined[name] && !(r.intn(1000) < h.pPassFault) {
 				// a second definition only as a compile-time fault
-				for _, l := range []string{"l0", "l1", "l2", "l3"} {
+				for _, l := range c18labelsAll {
 					if !h.defined[l] {
 						name = l
 					}
@@ -2001,6 +2084,10 @@ func (h *c18hist) genOne(limits map[int]int) {
 	case w < 810:
 		if needGlob() {
 			a := pick(r, c18attrs)
+			if r.chance(1, 4) {
+				a = r.intn(1 << 16)
+				h.stats["dattr_any"]++
+			}
 			h.op("dattr", itoa(a))
 			h.call("DataAttributes", func() { h.a.DataAttributes(attr.Attribute(a)) })
 		}
@@ -2016,13 +2103,13 @@ func (h *c18hist) genOne(limits map[int]int) {
 			h.call("AppendDatum", func() { h.a.AppendDatum(v) })
 			h.addData(h.gsize, size)
 		}
-	case w < 925:
+	case w < 940:
 		h.genCons()
-	case w < 935:
+	case w < 950:
 		h.genPressure(limits)
-	case w < 937:
-		h.genImplicitOnly()
 	case w < 952:
+		h.genImplicitOnly()
+	case w < 967:
 		if h.pPassFault > 0 {
 			h.genLabelFault()
 		}
@@ -2106,6 +2193,49 @@ var c18scripts = []func(h *c18hist){
 		h.op("impl", "f1")
 		h.call("Implement", func() { h.a.c.Implement("f1") })
 	},
+	// a build constraint with a character that only looks like a digit (No), between two valid ones;
+	// the same through the text route; a valid one with letters and digits of other scripts
+	func(h *c18hist) {
+		h.scriptFn(nil)
+		h.scriptCons(1, [][]string{{"amd64"}})
+		h.scriptCons(1, [][]string{{"v½"}})
+		h.scriptCons(1, [][]string{{"linux"}})
+		h.genInstr("RET", true, nil, "")
+	},
+	func(h *c18hist) {
+		h.scriptFn(nil)
+		h.scriptCons(2, [][]string{{"sse4²"}})
+		h.genInstr("RET", true, nil, "")
+	},
+	func(h *c18hist) {
+		h.scriptFn(nil)
+		h.scriptCons(0, [][]string{{"!Ⅷ", "x"}, {"①"}})
+		h.genInstr("RET", true, nil, "")
+	},
+	func(h *c18hist) {
+		h.scriptFn(nil)
+		h.scriptCons(2, [][]string{{"sse4٣", "!日本"}, {"x.y", "ǅʰ"}})
+		h.genInstr("RET", true, nil, "")
+	},
+	// a datum overlapping an earlier one, with a zero-width datum sitting at the same offset in between
+	func(h *c18hist) {
+		h.scriptGlob()
+		h.scriptDatum(0, 8)
+		h.scriptDatum(0, 0)
+		h.scriptDatum(4, 4)
+	},
+	// a datum before the start of the section
+	func(h *c18hist) { h.scriptGlob(); h.scriptDatum(0, 8); h.scriptDatum(-4, 4); h.scriptDatum(8, 8) },
+	// the name the printers give to an unnamed parameter is not a name it answers to
+	func(h *c18hist) {
+		u := &c18ty{k: "uint", size: 8}
+		h.scriptFn(&c18sig{params: []c18var{{"", u}}, results: []c18var{{"", u}}})
+		h.scriptRootName(false, "arg", c18comp{})
+		h.loadStoreSlot(0, c18comp{u, false}, false)
+		h.scriptRootName(true, "ret", c18comp{})
+		h.loadStoreSlot(1, c18comp{u, false}, false)
+		h.genInstr("RET", true, nil, "")
+	},
 	// one call with a nil argument each
 	c18nilScript(0), c18nilScript(1), c18nilScript(2), c18nilScript(3), c18nilScript(4), c18nilScript(5),
 	c18nilScript(6), c18nilScript(7), c18nilScript(8), c18nilScript(9), c18nilScript(10),
@@ -2116,6 +2246,50 @@ func c18nilScript(k int) func(h *c18hist) {
 		h.scriptFn(nil)
 		h.genInstr("RET", true, nil, "")
 		h.genNil(k)
+	}
+}
+
+// scriptCons: the given line by route 0 Constraints, 1 Constraint, 2 ConstraintExpr
+func (h *c18hist) scriptCons(route int, c [][]string) {
+	toks, _ := c18shapeToks(c)
+	k := c18shapeConstraint(c)
+	switch route {
+	case 0:
+		h.op(append([]string{"conss", "1"}, toks...)...)
+		h.call("Constraints", func() { h.a.Constraints(buildtags.Constraints{k}) })
+	case 1:
+		h.op(append([]string{"cons"}, toks...)...)
+		h.call("Constraint", func() { h.a.Constraint(k) })
+	default:
+		var fs []string
+		for _, o := range c {
+			fs = append(fs, strings.Join(o, ","))
+		}
+		text := strings.Join(fs, " ")
+		h.op("consx", c18cps(text), c18bit(c18toolExpr(text)))
+		h.call("ConstraintExpr", func() { h.a.ConstraintExpr(text) })
+	}
+}
+
+func (h *c18hist) scriptGlob() {
+	h.globN++
+	name := fmt.Sprintf("d%d", h.globN)
+	h.op("glob", name)
+	h.call("StaticGlobal", func() { h.a.StaticGlobal(name) })
+	h.openGlob()
+}
+
+func (h *c18hist) scriptDatum(off, size int) {
+	v := h.constOf(size)
+	if off < 0 {
+		h.op("datumneg", itoa(-off-1), itoa(size))
+		h.call("AddDatum", func() { h.a.AddDatum(off, v) })
+		return
+	}
+	h.op("datum", itoa(off), itoa(size))
+	h.call("AddDatum", func() { h.a.AddDatum(off, v) })
+	if !h.overlapsAny(off, size) {
+		h.addData(off, size)
 	}
 }
 
@@ -2298,6 +2472,10 @@ func c18calibrate(limits map[int]int) *c18calib {
 			c.AddDatum(0, operand.U64(1))
 			c.AddDatum(4, operand.U64(2))
 		}},
+		{"negoff", func(c *build.Context) {
+			c.StaticGlobal("d")
+			c.AddDatum(-4, operand.U32(1))
+		}},
 		{"constraint", cons("!!x")},
 		{"constraint", cons("!")},
 		{"constraint", cons("a-b")},
@@ -2406,6 +2584,10 @@ func c18classify(msg, origin string) string {
 	switch origin {
 	case "SignatureExpr", "TEXT":
 		return "sig"
+	case "Constraints", "Constraint", "ConstraintExpr":
+		// messages of buildtags validation quote the offending term / character, which may itself be a
+		// quote or a backslash: recognised by the call that reported them, like the type checker's
+		return "constraint"
 	}
 	return "unknown"
 }
@@ -2486,11 +2668,11 @@ func c18bit(b bool) string {
 	return "0"
 }
 
-func c18run(r *rng, limits map[int]int, stats map[string]int, script func(h *c18hist)) c18result {
+func c18run(r *rng, limits map[int]int, stats map[string]int, script func(h *c18hist), scriptPkg bool) c18result {
 	ctx := build.NewContext()
 	h := &c18hist{r: r, a: &c18api{c: ctx}, stats: stats}
 	route := "ctx"
-	if script == nil && r.chance(1, 4) {
+	if (script == nil && r.chance(1, 4)) || (script != nil && scriptPkg) {
 		route = "pkg"
 		h.a.pkg = true
 		old := build.VerifSwapContext(ctx)
@@ -2514,6 +2696,9 @@ func c18run(r *rng, limits map[int]int, stats map[string]int, script func(h *c18
 	case mode < 52: // valid but for one call with a nil argument
 		h.single = 9
 		stats["mode_single_nil_argument"]++
+	case mode < 55: // valid but for one invalid build constraint
+		h.single = 10
+		stats["mode_single_bad_constraint"]++
 	case mode < 72:
 		h.pFault = pick(r, []int{20, 60, 150, 300})
 		if r.chance(1, 4) {
@@ -2639,7 +2824,19 @@ func c18run(r *rng, limits map[int]int, stats map[string]int, script func(h *c18
 	} else {
 		mainPanicked = h.call("Main", func() { status = build.Main(cfg, ctx) })
 	}
+	// one diagnostic line per message; a message that itself contains line breaks (buildtags quotes
+	// the offending character raw: "character '\n' disallowed") is still one diagnostic
+	nlIn := func(ms []string) int {
+		n := 0
+		for _, m := range ms {
+			n += strings.Count(m, "\n")
+		}
+		return n
+	}
 	diagLines := strings.Count(diag.String(), "\n")
+	if !mainPanicked && diagLines >= len(msgs)+nlIn(msgs) {
+		diagLines -= nlIn(msgs)
+	}
 	perr := "-"
 	if len(msgs) == 0 && status != 0 && !mainPanicked {
 		perr = c18classifyPass(diag.String())
@@ -2685,7 +2882,11 @@ func c18run(r *rng, limits map[int]int, stats map[string]int, script func(h *c18
 		}()
 		if ok {
 			out.maxReq = fmt.Sprintf("c18max %d %d", mx, len(msgs))
-			out.maxResp = itoa(strings.Count(d2.String(), "\n"))
+			logged := msgs
+			if len(logged) > mx {
+				logged = logged[:mx]
+			}
+			out.maxResp = itoa(strings.Count(d2.String(), "\n") - nlIn(logged))
 		}
 	}
 	switch {
@@ -2744,12 +2945,35 @@ func init() {
 		classes := map[string]int{}
 		sizes := map[string]int{}
 		r := newRng(*f.seed)
-		for k := 0; k < *f.n; k++ {
-			var script func(h *c18hist)
-			if k < len(c18scripts) {
-				script = c18scripts[k]
+		// the boundary of the toolchain's tag-character table, swept: one small history per edge
+		// code point (quick: one route/position per code point, in rotation; thorough: all 24)
+		var scripts []func(h *c18hist)
+		var scriptPkg []bool
+		for _, sc := range c18scripts {
+			scripts = append(scripts, sc)
+			scriptPkg = append(scriptPkg, false)
+		}
+		edges := c18edgeRunes()
+		stats["cons_edge_runes"] = len(edges)
+		for i, x := range edges {
+			if *f.tier == "thorough" {
+				for k := 0; k < 24; k++ {
+					scripts = append(scripts, c18edgeScript(x, k))
+					scriptPkg = append(scriptPkg, (i+k)%4 == 3)
+				}
+			} else {
+				scripts = append(scripts, c18edgeScript(x, i+int(*f.seed%24)))
+				scriptPkg = append(scriptPkg, i%4 == 3)
 			}
-			res := c18run(r.fork(), limits, stats, script)
+		}
+		total := *f.n + len(scripts) - len(c18scripts)
+		for k := 0; k < total; k++ {
+			var script func(h *c18hist)
+			pkg := false
+			if k < len(scripts) {
+				script, pkg = scripts[k], scriptPkg[k]
+			}
+			res := c18run(r.fork(), limits, stats, script, pkg)
 			if res.req != "" {
 				o.emit(res.req, res.resp)
 				o.emit(res.mainReq, res.mainResp)
@@ -2771,6 +2995,6 @@ func init() {
 				sizes["tokens>=400"]++
 			}
 		}
-		return writeJSON(*f.stats, map[string]any{"histories": *f.n, "outcome_classes": classes, "generator": stats, "request_sizes": sizes})
+		return writeJSON(*f.stats, map[string]any{"histories": total, "outcome_classes": classes, "generator": stats, "request_sizes": sizes})
 	})
 }
